@@ -165,6 +165,55 @@ theorem holdsG_outside_step (s s' : St) (e : Ev) (hs : step s e = some s')
     | (simp only [Option.some.injEq] at hs; subst hs; exact ho)
     | (simp only [Option.some.injEq] at hs; subst hs; intro u hu; grind [upd])
 
+/-- a task that holds by program order and is inside an operation was the owner when it invoked it
+    (so its `lock()` reports the deadlock error and never parks) -/
+def HoldInv (s : St) : Prop :=
+  (∀ t, s.holdsG t = true → s.pc t = .idle ∨ s.pc t = .fin ∨ s.ownedAtInv t = true) ∧
+  (∀ t, s.n ≤ t → s.holdsG t = false)
+
+theorem setPopped_not_rest {q q' : Pc} (h : setPopped q = some q') :
+    q ≠ .idle ∧ q ≠ .fin ∧ q' ≠ .idle ∧ q' ≠ .fin := by
+  unfold setPopped at h
+  split at h <;> simp at h <;> subst h <;> simp
+
+theorem holdInv_step (s s' : St) (e : Ev) (hi2 : Inv2 s) (hk : HoldInv s) (hs : step s e = some s') :
+    HoldInv s' := by
+  refine ⟨?_, holdsG_outside_step _ _ _ hs hk.2⟩
+  have hk1 := hk.1
+  have hh := hi2.hold1
+  intro u
+  cases e
+  case popResume t z g d =>
+    simp only [step] at hs
+    (repeat' split at hs) <;> first | (simp at hs; done) | skip
+    all_goals (
+      have hsp := setPopped_not_rest ‹setPopped _ = some _›
+      simp only [Option.some.injEq] at hs; subst hs
+      have := hk1 u
+      grind [upd])
+  all_goals
+    simp only [step] at hs <;> (repeat' split at hs) <;>
+      first
+      | (simp at hs; done)
+      | (simp only [Option.some.injEq] at hs; subst hs; have := hk1 u; have := hh u; grind [upd])
+
+theorem holdInv_of_accepted {n : Nat} {log : List Ev} {s : St}
+    (h : runLog step (init n) log = some s) : HoldInv s := by
+  have : ∀ (log : List Ev) (s0 s : St), Inv s0 ∧ Inv2 s0 ∧ HoldInv s0 → runLog step s0 log = some s → HoldInv s := by
+    intro log
+    induction log with
+    | nil => intro s0 s h0 h; simp at h; exact h ▸ h0.2.2
+    | cons e es ih =>
+      intro s0 s h0 h
+      simp only [runLog] at h
+      cases hs : step s0 e with
+      | none => simp [hs] at h
+      | some s1 =>
+        simp only [hs] at h
+        exact ih s1 s ⟨step_inv s0 s1 e h0.1 hs, step_inv2 s0 s1 e h0.1 h0.2.1 hs,
+          holdInv_step s0 s1 e h0.2.1 h0.2.2 hs⟩ h
+  exact this log _ s ⟨inv_init n, inv2_init n, ⟨fun t ht => by simp [init] at ht, fun _ _ => rfl⟩⟩ h
+
 /-- run-time form of `Closed` -/
 structure Cl (p : PSt) : Prop where
   closed : ∀ t, t < p.s.n → endsOpen (mayHold p.s t) (p.prog t) = false
